@@ -9,6 +9,7 @@ from ..core import FUNC, call_attr, calls_in, const, dotted, is_const, kwarg, no
 from .c01 import _fmt_in
 
 EXPLANATION = [
+    'C02.feed-contained: the error the push parser reports for an unknown type byte cannot tear the transport down at any site that feeds it (same rule as C17.feed-contained), so subsequently fed well-formed data is framed.',
     'C02.info-table: HCI_PACKET_INFO[type] = (length size, length offset, format) equals position and width of the length field in '
     'the header layout hci.py itself uses for that packet type.',
     'C02.pull-framers: PacketReader and AsyncPacketReader read 1, info[0]+info[1] and body_length bytes, unpack the length with '
@@ -231,7 +232,13 @@ def server_reset(ctx):
     R.floor(rule, 3, 'server transports')
 
 
+def feed_contained(ctx):
+    from . import c17
+    c17.feed_contained(ctx, rule='C02.feed-contained')
+
+
 RULES = [
+    ('C02.feed-contained', feed_contained),
     ('C02.info-table', info_table),
     ('C02.pull-framers', pull_framers),
     ('C02.push-parser', push_parser),
